@@ -164,11 +164,11 @@ def body_aggregation(E, cfg):
 def aggregation_configs(restrict):
     def f(tier):
         modes = ["all", "best"] if tier == "quick" else list(multipass.MODES)
-        cfgs = [dict(KR=6, KQ=6, nq=2, nrefs=1, first=[0, 1, 2] if tier != "quick" else [0, 1], second=[0, 1, 2], restrict=restrict, modes=modes),
-                dict(KR=6, KQ=6, nq=1, nrefs=2, first=[1, 2], second=[0, 1, 5], restrict=restrict, modes=modes)]
-        cfgs.append(dict(KR=6, KQ=6, nq=2, nrefs=2, first=[1, -1], second=[0, 1], restrict=restrict, modes=modes))
+        cfgs = [dict(KR=6, KQ=6, nq=2, nrefs=1, first=["none", "start+", "end-"] if tier != "quick" else ["none", "start+"], second=["none", "continue+", "overlap+"], restrict=restrict, modes=modes),
+                dict(KR=6, KQ=6, nq=1, nrefs=2, first=["start+", "end-"], second=["none", "continue+", "ref2+"], restrict=restrict, modes=modes)]
+        cfgs.append(dict(KR=6, KQ=6, nq=2, nrefs=2, first=["start+", "ref2-start+"], second=["none", "continue+"], restrict=restrict, modes=modes))
         if tier != "quick":
-            cfgs.append(dict(KR=6, KQ=6, nq=2, nrefs=2, first=[1, 3, -1], second=[0, 1, 5], restrict=restrict, swap_ids=True))
+            cfgs.append(dict(KR=6, KQ=6, nq=2, nrefs=2, first=["start+", "end+", "ref2-start+"], second=["none", "continue+", "ref2+"], restrict=restrict, swap_ids=True))
         return cfgs
     return f
 
